@@ -189,6 +189,33 @@ def run(ctx, rep):
         if not effects:
             rep.ok("R14.1", "post-acknowledgement effects", "none")
 
+    # ---------------- R14.5 -------------------------------------------------------------
+    rep.rule("R14.5", "dropping the store always returns: no Drop impl polls for progress of the worker (sleep / yield / spin on an atomic / park / "
+                      "blocking recv): the worker ends on any I/O error without publishing progress, and a drop that waits for it never "
+                      "returns - the directory lock, released only after the Drop body, is then held for the life of the process")
+    WAIT_RX = (r"thread::sleep$|thread::yield_now$|hint::spin_loop$|thread::park(_timeout)?$|sync::atomic::Atomic\w*::(<\w+>::)?(load|compare_exchange\w*|swap|fetch_\w+)$|"
+               r"mpsc::Receiver::<T>::(recv|recv_timeout|iter)$|Condvar::wait\w*$|Barrier::wait$")
+    n_drop_calls = 0
+    polled = False
+    for d in drops:
+        gd = ctx.graph(d["key"])
+        Pd = ctx.product(d["key"])
+        n_drop_calls += len(Pd.calls(None))
+        seen_k = set()
+        for n in Pd.calls(WAIT_RX):
+            nm = cpath(gd.term(n)).split("::")[-1]
+            k = "%s|drop-waits-for-worker:%s" % (short_key(d["key"]).split(" as ")[0].strip("<").split("::")[-1], nm)
+            if k in seen_k:
+                continue
+            seen_k.add(k)
+            polled = True
+            rep.violation("R14.5", k, short_key(d["key"]),
+                          "a Drop impl waits (`%s`) for something only the worker thread can make true; when the worker has already ended "
+                          "(any failed write / unlink ends it) the drop never returns and the directory stays locked" % cpath(gd.term(n)),
+                          where=gd.where(n))
+    if not polled:
+        rep.ok("R14.5", "Drop impls", "%d Drop impl(s), %d call site(s) in their cones: none polls or blocks on the worker" % (len(drops), n_drop_calls))
+
     # ---------------- R14.3 -------------------------------------------------------------
     rep.rule("R14.3", "once the worker has observed that its channel is closed (the store was dropped) it performs no file mutation before quitting")
     # only a failed blocking recv() means "closed": try_recv / recv_timeout also fail when the queue is merely empty
